@@ -451,3 +451,8 @@ def run(ctx: Ctx, rep: Report, tier: str):
     from rules.common import wait_joins_unless_own_thread
     rep.rule("C18.L15", "wait() really waits (C15.R5): exact join condition", 1)
     section(rep, lambda: wait_joins_unless_own_thread(ctx, rep, "C18.L15"))
+    from rules.decisions import decision_table, table_sites
+    rep.rule("C18.DT", "decision table (rules/decisions.json) of the runnable service loop, notification delivery and the start / stop / wait entry points: for every function and every action shape (an impure call with the parameters it passes, a store to an "
+             "attribute or item, a delete, a returned constant, a yield, a raise) the set of states - over the function's guard atoms - in which the action is taken "
+             "equals the recorded one; compared as canonical decision diagrams, so any equivalent respelling of the guards is the same table", table_sites("C18"))
+    section(rep, lambda: decision_table(ctx, rep, "C18.DT", "C18"))
